@@ -564,6 +564,139 @@ def depth(e):
     return 1 + max([depth(x) for x in subs] or [0])
 
 
+# ---------------------------------------------------------------------------- long chains
+# A chain is a sequence of atoms with an infix operator between neighbours.  Its tree under the documented levels is found
+# by operator-precedence reduction over the sequence (no recursion: the chains go up to what a 64 KiB program holds), which
+# gives, per atom, how many applications start and end there = the parentheses of the full form, and the value.
+PROGRAM_LIMIT = 65536
+CHAIN_PRE = "function inc(x) { return x + 1 }\nBEGIN { a = 3; b = 5; c = 7; s = \"x\"; t = \"10\"\n print "
+CHAIN_POST = "\n}"
+CHAIN_ENV = {"a": 3.0, "b": 5.0, "c": 7.0, "s": "x", "t": "10"}
+
+
+def atom_tree(text):
+    if text in CHAIN_ENV:
+        return ("var", text)
+    if text in ("true", "false", "null"):
+        return ("lit", text)
+    if text.startswith('"'):
+        return ("str", text[1:-1])
+    return ("num", text)
+
+
+def atom_value(text):
+    return ev(atom_tree(text), dict(CHAIN_ENV))
+
+
+def reduce_chain(atoms, ops, want_tree=False):
+    """(opens, closes, value, tree or None) of the left-to-right chain; raises RuntimeErr if any application fails"""
+    n = len(atoms)
+    opens, closes = [0] * n, [0] * n
+    spans, vals, trees, opst = [], [], [], []
+
+    def reduce():
+        op = opst.pop()
+        l2, h2 = spans.pop()
+        l1, h1 = spans.pop()
+        r, l = vals.pop(), vals.pop()
+        opens[l1] += 1
+        closes[h2] += 1
+        spans.append((l1, h2))
+        v = opref.binop(op, l, r)               # no operand has an effect or fails, so && || need no short circuit here
+        if not finite_small(v):
+            raise Unsuitable()
+        vals.append(v)
+        if want_tree:
+            rt, lt = trees.pop(), trees.pop()
+            trees.append(("bin", op, lt, rt))
+    for i in range(n):
+        spans.append((i, i))
+        vals.append(atom_value(atoms[i]))
+        if want_tree:
+            trees.append(atom_tree(atoms[i]))
+        if i < n - 1:
+            while opst and LEVEL[opst[-1]] >= LEVEL[ops[i]]:
+                reduce()
+            opst.append(ops[i])
+    while opst:
+        reduce()
+    return opens, closes, vals[0], (trees[0] if want_tree else None)
+
+
+def chain_texts(atoms, ops, opens, closes):
+    flat, full = [], []
+    for i, a in enumerate(atoms):
+        flat.append(a)
+        full.append("(" * opens[i] + a + ")" * closes[i])
+        if i < len(ops):
+            flat.append(" " + ops[i] + " ")
+            full.append(" " + ops[i] + " ")
+    return "".join(flat), "".join(full)
+
+
+CHAIN_FAMILIES = ["additive", "concat", "multiplicative", "comparison", "logical", "mixed", "one-op"]
+NUM_ATOMS = ["1", "2", "3", "5", "7", "11", "0.5", "2.5", "10", "4", "a", "b", "c"]
+ANY_ATOMS = NUM_ATOMS + ['"x"', '"10"', '"9"', '""', "s", "t", "true", "false", "null", "0"]
+
+
+def gen_chain(rng, family, n):
+    """(atoms, ops) with n atoms.  The right operand of * / % is always a single atom (nothing binds tighter between atoms),
+    so a run of them is a left fold that is followed here: divisors are non-zero (integers for %), and the factors steer the
+    running product back whenever it leaves the range where every result is a plainly printed double."""
+    atoms, ops = [], []
+    fixed = rng.choice(["-", "+", "*", "/", "%", "<", "==", "!=", ">=", "&&", "||"]) if family == "one-op" else None
+    numeric = family in ("additive", "multiplicative") or fixed in ("-", "*", "/", "%")
+    cur = None
+    for i in range(n):
+        for attempt in range(6):
+            op = None
+            if i > 0:
+                big, tiny = abs(cur) > 1e6, abs(cur) < 1
+                if fixed:
+                    op = fixed
+                elif family in ("additive", "concat"):
+                    op = rng.choice(["+", "-"])
+                elif family == "multiplicative":
+                    op = rng.choice(["/", "%"]) if big else rng.choice(["*", "*", "/"]) if tiny else rng.choice(["*", "/", "%"])
+                elif family == "comparison":
+                    op = rng.choice(["==", "!=", "<", "<=", ">", ">="])
+                elif family == "logical":
+                    op = rng.choice(["&&", "||"])
+                else:
+                    op = rng.choice(["+", "-", "+", "-", "*", "/", "%", "*", "/", "%", "==", "!=", "<", "<=", ">", ">=", "&&", "||"])
+                    if op == "*" and big:
+                        op = "/"
+            if op == "%":
+                atom = rng.choice(["2", "3", "5", "7", "11", "4", "10", "a", "b", "c"])
+            elif op == "/":
+                atom = "0.5" if abs(cur) < 1e-3 else rng.choice(["2", "3", "5", "7", "11", "4", "10", "a", "b", "c", "2.5"])
+            elif op == "*":
+                atom = "0.5" if big else rng.choice(["10", "7"]) if abs(cur) < 1e-3 else rng.choice(["2", "3", "0.5", "2.5", "1", "a", "7"])
+            elif numeric:
+                atom = rng.choice(NUM_ATOMS)
+            elif family == "concat":
+                atom = rng.choice(NUM_ATOMS + ['"x"', "s"]) if rng.random() < 0.9 else rng.choice(['"10"', "t", "true", "null"])
+            else:
+                atom = rng.choice(ANY_ATOMS)
+            v = opref.num(atom_value(atom))
+            nxt = opref.binop(op, cur, v) if op in ("*", "/", "%") else v
+            if nxt != 0 or op not in ("*", "/", "%") or cur == 0:
+                break                   # a product that reaches 0 stays there: pick again while there is a choice
+        if op is not None:
+            ops.append(op)
+        atoms.append(atom)
+        cur = nxt
+    return atoms, ops
+
+
+class Unsuitable(Exception):
+    pass
+
+
+def finite_small(v):
+    return not isinstance(v, float) or isinstance(v, bool) or (v == v and abs(v) < 1e15)
+
+
 class C06(Check):
     pid = "C06"
     props = ["C06_syntax.v"]
@@ -572,7 +705,11 @@ class C06(Check):
             "minimal parentheses of the documented table and fully parenthesised; both run (value + all variables printed) and both "
             "parsed (AST dump); reference = own evaluation of the tree / own AST of the tree. thorough = every ordered pair and "
             "triple of infix operators under every legal tree shape, with and without prefix/suffix decoration, + random trees "
-            "of depth <= 12; non-trivial = at least two infix operators and the minimal rendering omits parentheses")
+            "of depth <= 12; chains: flat sequences of 4 to ~9000 operands (operators of one level, of one operator, of all levels "
+            "mixed, + with strings) against the fully parenthesised form found by precedence reduction, assignment chains, prefix "
+            "operator chains, redundant and overriding parentheses, calls inside arguments, at every size up to the largest that "
+            "fits a 64 KiB program (to 40 operands as trees against the model, larger on the implementation alone); "
+            "non-trivial = at least two infix operators and the minimal rendering omits parentheses")
 
     def project(self, r):
         if len(r.raw) == 5:         # PARSEEXPR: status and tree
@@ -632,12 +769,153 @@ class C06(Check):
                     if ref is not None and (ref[0] == "ok" or rng.random() < 0.15):
                         break
             self.add_tree(t, "random depth %d" % depth(t))
+        self.chains(rng, thorough)
         # parse-only trees
         for i in range(3000 if thorough else 300):
             t = free_tree(rng, rng.choice([2, 3, 4, 5, 7]))
             if len(rmin(t)) < 600:
                 self.add_tree(t, "parse-only", run=False)
         return self.cases
+
+    # ------------------------------------------------------------------ long chains
+    def chains(self, rng, thorough):
+        """flat chains against their fully parenthesised forms at every size: small ones as trees (run + parsed, against the
+        model too), the rest on the implementation alone up to the largest that fits a 64 KiB program"""
+        room = PROGRAM_LIMIT - len(CHAIN_PRE) - len(CHAIN_POST) - 64
+        for fam in CHAIN_FAMILIES:
+            small = [rng.randint(4, 8), rng.randint(9, 20), rng.randint(21, 40)] if not thorough else list(range(4, 41, 3))
+            for n in small:
+                for _ in range(10):
+                    atoms, ops = gen_chain(rng, fam, n)
+                    try:
+                        _, _, _, tree = reduce_chain(atoms, ops, want_tree=True)
+                    except (RuntimeErr, Unsuitable):
+                        continue
+                    # the tree's variables live in the common prelude under the same names and values
+                    self.add_tree(tree, "chain %s of %d" % (fam, n))
+                    break
+            if thorough:
+                big = [41, 64, 100, 127, 128, 129, 200, 255, 256, 257, 258, 300, 511, 512, 513, 1000, 1023, 1024, 1025, 2000, 2047, 2048,
+                       2049, 3000, 4095, 4096, 4097, 5000, 7000] + [rng.randint(41, 8000) for _ in range(10)] + [None]
+            else:
+                big = [rng.randint(41, 150), rng.randint(150, 400), rng.randint(400, 1500), rng.randint(1500, 5000), None]
+            for n in big:
+                self.big_chain(rng, fam, n, room)
+        for kind in ("assign", "prefix", "redundant", "override", "calls"):
+            if thorough:
+                sizes = [3, 10, 40, 100, 255, 256, 257, 300, 1000, 1024, 2048, 4096, 4097, 6000] + [rng.randint(41, 8000) for _ in range(6)] + [None]
+            else:
+                sizes = [rng.randint(3, 12), rng.randint(13, 40), rng.randint(41, 250), rng.randint(250, 1000), rng.randint(1000, 5000), None]
+            for n in sizes:
+                self.nest_chain(rng, kind, n, room)
+
+    def big_chain(self, rng, fam, n, room):
+        for _ in range(10):
+            m = n if n is not None else room // 6
+            atoms, ops = gen_chain(rng, fam, m)
+            try:
+                opens, closes, val, _ = reduce_chain(atoms, ops)
+            except (RuntimeErr, Unsuitable):
+                continue
+            flat, full = chain_texts(atoms, ops, opens, closes)
+            if n is None:
+                # the largest chain whose full form still fits: cut at an atom and reduce again
+                while len(full) > room:
+                    m = int(m * room / len(full)) - 1
+                    atoms, ops = atoms[:m], ops[:m - 1]
+                    try:
+                        opens, closes, val, _ = reduce_chain(atoms, ops)
+                    except (RuntimeErr, Unsuitable):
+                        break
+                    flat, full = chain_texts(atoms, ops, opens, closes)
+                if len(full) > room:
+                    continue
+            elif len(full) > room:
+                return
+            self.add_forms("chain %s of %d operands" % (fam, len(atoms)), flat, full, opref.pretty(val) + "\n", len(atoms))
+            return
+
+    def nest_chain(self, rng, kind, n, room):
+        """nesting that is not a sequence of binary operators: assignments (group from the right), prefix operators,
+        redundant parentheses, parentheses that override the grouping, calls inside arguments"""
+        tail = ""
+        if kind == "assign":
+            n = n if n is not None else room // 16
+            aops = [rng.choice(["=", "=", "+=", "-="]) for _ in range(n)]
+            if rng.random() < 0.3:
+                aops[rng.randrange(n)] = "*="           # everything to its left is then built on 0
+            val = float(rng.choice([5, 7, 2.5, 11]))
+            last = pyref.fmt_f(val) if hasattr(pyref, "fmt_f") else opref.pretty(val)
+            names = ["x%d" % i for i in range(n)]
+            flat = "".join("%s %s " % (v, o) for v, o in zip(names, aops)) + last
+            full = "".join("(%s %s " % (v, o) for v, o in zip(names, aops)) + last + ")" * n
+            vals = [None] * n
+            for i in range(n - 1, -1, -1):      # an unset variable counts as 0 in a compound assignment
+                val = val if aops[i] == "=" else opref.binop(aops[i][0], UNSET, val)
+                vals[i] = val
+            probe = sorted(set([0, n // 2, n - 1]))
+            tail = "\n print " + ", ".join(names[i] for i in probe)
+            want = opref.pretty(vals[0]) + "\n" + " ".join(opref.pretty(vals[i]) for i in probe) + "\n"
+        elif kind == "prefix":
+            n = n if n is not None else room // 3 - 4
+            pops = [rng.choice(["-", "-", "!", "+"]) for _ in range(n)]
+            atom = rng.choice(["5", "a", "0", '"x"', "2.5"])
+            flat = " ".join(pops) + " " + atom
+            full = "".join("(" + o for o in pops) + atom + ")" * n
+            val = atom_value(atom)
+            for o in reversed(pops):
+                val = opref.unop(o, val)
+            want = opref.pretty(val) + "\n"
+        elif kind == "redundant":
+            n = n if n is not None else room // 2 - 16
+            where = rng.choice(["whole", "operand", "both"])
+            k = n // 2 if where == "both" else n
+            inner = "(" * k + "b" + ")" * k if where != "whole" else "b"
+            flat = "a + " + inner + " * c"
+            if where != "operand":
+                flat = "(" * (n - k if where == "both" else n) + flat + ")" * (n - k if where == "both" else n)
+            full = "(a + (b * c))"
+            want = "38\n"
+        elif kind == "override":
+            n = n if n is not None else room // 7
+            op = rng.choice(["-", "-", "<", "==", "!=", ">="]) if n > 12 else rng.choice(["-", "/", "%", "<", "=="])
+            atoms = [rng.choice(["2", "3", "5", "7", "11", "a", "b"]) for _ in range(n)]
+            flat = "".join("%s %s (" % (x, op) for x in atoms[:-1]) + atoms[-1] + ")" * (n - 1)
+            full = "(" + flat + ")"
+            try:
+                val = atom_value(atoms[-1])
+                for x in reversed(atoms[:-1]):
+                    val = opref.binop(op, atom_value(x), val)
+                    if not finite_small(val):
+                        return
+            except RuntimeErr:
+                want = None
+            else:
+                want = opref.pretty(val) + "\n"
+        else:
+            n = n if n is not None else room // 7
+            flat = "inc(" * n + "1" + ")" * n
+            full = "(inc(" * n + "1" + "))" * n
+            want = opref.pretty(float(n + 1)) + "\n"
+        if max(len(flat), len(full)) + len(tail) > room:
+            return
+        self.add_forms("%s nesting of %d" % (kind, n), flat, full, want, n, tail)
+
+    def add_forms(self, what, flat, full, want_stdout, n, tail=""):
+        """two renderings of one expression that only the implementation runs (the model needs minutes for nesting this deep)"""
+        key = "k%d" % self.n
+        self.n += 1
+        for form, text in (("minimal", flat), ("full", full)):
+            cid = "%s%s" % (key, form[0])
+            prog = CHAIN_PRE + text + tail + CHAIN_POST
+            meta = {"what": what, "key": key, "form": form, "kind": "chainrun", "operands": n, "prog": prog,
+                    "impl_only": "nesting of %d in a %d byte program: the extracted model needs minutes" % (n, len(prog)),
+                    "line": simple_run(cid, prog)}
+            if want_stdout is None:
+                meta["want_outcome"], meta["want_stdout"] = "runtime", ""
+            else:
+                meta["want_outcome"], meta["want_stdout"] = "ok", want_stdout
+            self.cases.append(Case(cid, None, meta, True, ("chain",)))
 
     def add_tree(self, t, what, run=True):
         a, b = rmin(t), rfull(t)
@@ -669,6 +947,13 @@ class C06(Check):
 
     def oracle(self, case, impl):
         m = case.meta
+        if m.get("kind") == "chainrun":
+            want = (m["want_outcome"], m["want_stdout"].encode())
+            got = (impl.outcome, impl.stdout)
+            if got != want:
+                return "%s rendering of a %s: reference evaluation gives %s, implementation %s; program: %s" % (
+                    m["form"], m["what"], _short(want), _short(got), _short(m["prog"], 300))
+            return None
         if m.get("kind") == "run" and "want_outcome" in m:
             want = (m["want_outcome"], m["want_stdout"].encode())
             got = (impl.outcome, impl.stdout)
@@ -685,6 +970,25 @@ class C06(Check):
     def extra(self, ctx):
         viol = []
         groups = {}
+        # the long chains: implementation only
+        big = [c for c in ctx["cases"] if c.meta.get("kind") == "chainrun"]
+        res = run_impl([c.meta["line"] for c in big]) if big else {}
+        by_key = {}
+        for c in big:
+            r = RunRes(res.get(c.id, []))
+            if r.outcome in ("timeout", "noresult"):
+                continue
+            why = self.oracle(c, r)
+            if why:
+                viol.append((c, why))
+            by_key.setdefault(c.meta["key"], []).append((c, r))
+        for key, pair in by_key.items():
+            if len(pair) == 2:
+                (c0, r0), (c1, r1) = pair
+                if (r0.outcome, r0.stdout) != (r1.outcome, r1.stdout):
+                    viol.append((c1, "a %s and its fully parenthesised form differ: %s vs %s; programs: %s / %s" % (
+                        c0.meta["what"], _short((r0.outcome, r0.stdout)), _short((r1.outcome, r1.stdout)),
+                        _short(c0.meta["prog"], 200), _short(c1.meta["prog"], 200))))
         for c in ctx["cases"]:
             if "key" in c.meta and c.line:
                 groups.setdefault((c.meta["key"], c.meta["kind"]), []).append(c)
@@ -703,7 +1007,12 @@ class C06(Check):
             if va != vb:
                 viol.append((cs[0], "%r and its fully parenthesised form %r differ (%s): %r vs %r"
                              % (cs[0].meta["minimal"], cs[0].meta["full"], kind, va, vb)))
-        return viol, {"metamorphic_pairs": npairs}
+        return viol, {"metamorphic_pairs": npairs + len(by_key), "long_chain_runs": len(big)}
+
+
+def _short(v, n=120):
+    t = v if isinstance(v, str) else repr(v)
+    return t if len(t) <= n else t[:n // 2] + " ...(%d bytes)... " % len(t) + t[-n // 2:]
 
 
 CHECK = C06()
